@@ -438,6 +438,39 @@ pub fn run(ctx: &Ctx) {
     ctx.space(&format!("BFS to depth {} over 46 operations: {} distinct states x ({} single + {} pair queries)", depth, states.len(), singles.len(), pairs.len() * pairs.len()), states.len() as u64, "complete to the stated depth");
     ctx.sample(json!({"kind": "state", "history": states[states.len() / 2].1}));
     ctx.sample(json!({"kind": "query", "history": [Op::AddAuth(0), Op::AddAuth(4)], "questions": [Q { owner: 5, qtype: 33, qclass: 1, unicast: true }]}));
+    // long repetitive histories: (a b)^k for every ordered pair of operations
+    {
+        let n_ops = ops.len();
+        let pairs: Vec<(usize, usize)> = (0..n_ops).flat_map(|a| (0..n_ops).map(move |b| (a, b))).collect();
+        let pch: Vec<&[(usize, usize)]> = pairs.chunks(32).collect();
+        let red: Vec<Q> = singles.iter().filter(|q| !q.unicast && q.qclass != 3).cloned().collect();
+        let total = std::sync::atomic::AtomicU64::new(0);
+        par_shards(ctx, &pch, |ps, t: &mut Tally| {
+            let w = world();
+            let mut cnt = 0u64;
+            for (a, b) in ps.iter() {
+                for k in [3usize, 9] {
+                    let mut h = Vec::new();
+                    for _ in 0..k {
+                        h.push(ops_ref[*a]);
+                        h.push(ops_ref[*b]);
+                    }
+                    t.evals += 1;
+                    t.nontrivial += 1;
+                    cnt += 1;
+                    let last = *h.last().unwrap();
+                    let mut f = check_transition(&w, &h[..h.len() - 1], last);
+                    f.extend(check_state(&w, &h, &red, &[], t));
+                    if !f.is_empty() {
+                        t.outcome("long-history-bad");
+                        ctx.violations(f);
+                    }
+                }
+            }
+            total.fetch_add(cnt, std::sync::atomic::Ordering::Relaxed);
+        });
+        ctx.space("long histories: (a b)^k for every ordered pair of the 46 operations, k in {3,9}: store read back and queried", total.load(std::sync::atomic::Ordering::Relaxed), "complete");
+    }
     // insertion-order differential: every permutation of every store of <= 3 authoritative/cached records
     let n = w.menu.len();
     let mut perms: Vec<Vec<Op>> = Vec::new();
